@@ -496,6 +496,7 @@ def lcs(a, b):
 
 def check_pack_order(ctx):
     """R01.7 / R02.7 / R09.5 / R17.4: order of kinds supplied as `p` vs order expected by the ODE function."""
+    check_signal_order(ctx)
     f, k, seq, nodes = get_p_sys_sequence(ctx)
     want = stage_pack_sequence(ctx)
     # signals hold bspline variables first (add_variables_V runs before add_parameter_signals), then bspline parameters
@@ -546,6 +547,40 @@ def r01_8(ctx):
         kinds_table(ctx, cname)
 
 
+def check_signal_order(ctx):
+    """The three places that hand sampled B-spline signals to a model / expression function stack them in registration order
+    (the order of the signals table, which is what get_p_sys, Stage.p and Stage.v are laid out for): each walks
+    <method>.signals.values() itself, takes one block per signal from that signal's own sample, and stacks the blocks in store order."""
+    P = ctx.prog
+    sites = [(P.own_method("Stage", "_grid_intg_fine"), "stage._method.signals.values()"), (P.own_method("DirectCollocation", "add_constraints"), "self.signals.values()")]
+    for f, it in sites:
+        sc = ctx.scope(f)
+        apps = [c for c in walk_no_nested(f.node) if is_call_to(c, "append", "v_sampled_store")]
+        if not apps:
+            raise AnalysisError("%s: store of sampled signals not found" % f.qualname)
+        for c in apps:
+            loops = sc.enclosing_loops(c)
+            ok = len(loops) == 1 and ast.unparse(loops[0][1]) == it
+            if ok:
+                lv = ast.unparse(loops[0][0])
+                a = c.args[0]
+                srcs = [a]
+                if isinstance(a, ast.Name):
+                    srcs = [d.value for d in sc.defs.get(a.id, []) if d.kind == "assign" and sc.within(d.stmt, loops[0][2])]
+                ok = bool(srcs) and all(any(isinstance(x, ast.Call) and isinstance(x.func, ast.Attribute) and x.func.attr == "sample" and ast.unparse(x.func.value) == lv for x in ast.walk(v)) for v in srcs)
+            ctx.check(ok, "%s stores one sampled block per signal, in registration order" % f.name, detail="sampled signals reordered (or taken from another signal): the p input of the function they are fed to is laid out in registration order",
+                      expected="for e in %s: v_sampled_store.append(<split of e.sample(...)>)" % it, found="%s in %s" % (ast.unparse(c)[:60], "; ".join("for %s in %s" % (ast.unparse(l[0]), ast.unparse(l[1])[:50]) for l in loops) or "no loop"), fi=f, node=c)
+        st = [c for c in walk_no_nested(f.node) if is_call_to(c, "append", "signals_sampled") and c.args and "v_sampled_store" in ast.unparse(c.args[0])]
+        ok = bool(st) and all(any(isinstance(x, ast.comprehension) and ast.unparse(x.iter) == "v_sampled_store" for x in ast.walk(c.args[0])) for c in st)
+        ctx.check(ok, "%s stacks the blocks of one sample position in store order" % f.name, detail="stacking order of the sampled signals", expected="vertcat(*[e[i] for e in v_sampled_store])", found="; ".join(ast.unparse(c.args[0])[:70] for c in st), fi=f)
+    g = P.own_method("SamplingMethod", "get_signals_at")
+    rets = [r for r in walk_no_nested(g.node) if isinstance(r, ast.Return) and r.value is not None]
+    ok = len(rets) == 1 and any(isinstance(x, ast.comprehension) and ast.unparse(x.iter) == "self.signals.values()" for x in ast.walk(rets[0].value)) and \
+        Norm(None).key(rets[0].value) in (Norm(None).key(ast.parse("veccat(*[e.sampled[%s] for e in self.signals.values()])" % g.params[2], mode="eval").body),
+                                          Norm(None).key(ast.parse("vvcat([e.sampled[%s] for e in self.signals.values()])" % g.params[2], mode="eval").body))
+    ctx.check(ok, "get_signals_at stacks the node samples of every signal in registration order", detail="signals at a node", expected="veccat(*[e.sampled[k] for e in self.signals.values()])", found="; ".join(ast.unparse(r.value) for r in rets), fi=g)
+
+
 def check_pack_order_fine(ctx):
     """The refined-sampling path has its own copy of the pack: expr_f's p input is vertcat(stage.p, stage.v), and it is fed with
     get_p_sys(..., include_signals=False) followed by the sampled signals (registration order: bspline variables, then parameters)."""
@@ -560,6 +595,7 @@ def check_pack_order_fine(ctx):
     feeds = [c for c in walk_no_nested(g.node) if is_call_to(c, "get_p_sys", "stage._method")]
     plain = [c for c in feeds if any(k.arg == "include_signals" and ast.unparse(k.value) == "False" for k in c.keywords)]
     appended = any(is_call_to(c, "vertcat") and any("signals_sampled" in ast.unparse(a) for a in c.args) and ast.unparse(c.args[-1]).startswith("signals_sampled") for c in walk_no_nested(g.node))
+    check_signal_order(ctx)
     f, k, seq, nodes = get_p_sys_sequence(ctx)
     want = stage_pack_sequence(ctx)
     supplied = [s for s in seq if s != "signals"] + (["V:bspline", "P:bspline"] if (plain and appended) or "signals" in seq else [])
